@@ -393,6 +393,29 @@ func execute(x *explore.Exec, sc *Scn, b *built, rep *runner.Report) {
 			checked = true
 		}
 	}
+	// the chain is not silently dropped: when the payload is long enough for every matcher in
+	// the scenario (and for the 3 bytes each consume stage takes), the terminal handler runs
+	maxK, c3s := 3, 0
+	switch sc.KProf {
+	case "big0", "bigN", "bigAll":
+		maxK = big()
+	case "nearN":
+		maxK = limit - 3
+	}
+	for _, st := range sc.Stages {
+		if st == "c3" {
+			c3s++
+		}
+	}
+	if sc.PLen >= maxK+3*c3s && err == nil && clientErr == nil {
+		ran := echoRan
+		for _, e := range ev {
+			ran = ran || (e.ID == "rec" && (e.Kind == "start" || e.Kind == "done"))
+		}
+		if !ran {
+			x.Fail("terminal-never-ran:"+wrappers, "the stream satisfies every matcher of the chain but its terminal handler never ran; %s", desc())
+		}
+	}
 	if checked {
 		rep.Nontrivial++
 	}
